@@ -598,6 +598,17 @@ def _large(p):
         got = numpy.asarray(interpolation.binImgs(img.copy(), n))
         o.check("block_sums_exact_large", got.shape == (260 // n, 140 // n) and numpy.array_equal(got, imgops.block_sum(img, n)),
                 sub="2d:n=%d" % n)
+    # the bin factor in every spelling a pixel-scale ratio produces: ints, numpy ints, floats, and floats a rounding
+    # error away from the whole number (0.3 / 0.1 = 2.9999999999999996, 0.1 * 3 / 0.1 = 3.0000000000000004)
+    small = img[:12, :24]
+    for n_, forms in ((3, (3, 3.0, 0.3 / 0.1, 0.1 * 3 / 0.1 if 0.1 * 3 / 0.1 != 3.0 else 3.0000000000000004, numpy.float64(3.0), numpy.int64(3), numpy.float32(3.0))),
+                      (2, (2, 2.0, 1.2 / 0.6, 0.2 / 0.1, 2.0000000000000004, numpy.int32(2))), (4, (4, 4.0, 0.4 / 0.1, 3.9999999999999996, numpy.uint8(4)))):
+        want = imgops.block_sum(small, n_)
+        for f_ in forms:
+            got = numpy.asarray(interpolation.binImgs(small.copy(), f_))
+            o.check("bin_factor_in_any_spelling", got.shape == want.shape and numpy.array_equal(got, want),
+                    sub="n=%r (%s)" % (f_, type(f_).__name__), detail=got.shape)
+            o.stat("lib_calls", 1)
     st = numpy.array([numpy.roll(img[:20, :12], k, 0) + k for k in range(130)])
     got = numpy.asarray(interpolation.binImgs(st.copy(), 2))
     o.check("block_sums_exact_large", got.shape == (130, 10, 6) and numpy.array_equal(got, imgops.block_sum(st, 2)), sub="stack130")
